@@ -5,7 +5,9 @@
 //        JSON client sends them, numbers being float64, plus the Go int 5 an embedding program may pass); 14 single-comparison filters over f (=, != on strings,
 //        numbers and booleans; <, <=, >, >= on numbers) and 8 compound ones (AND / OR in both cases, precedence,
 //        a connective inside a quoted value); each state is read live, after a clean restart
-//        from the log, after a snapshot + restart, and after compression to float16; plus histories of
+//        from the log, after a snapshot + restart, and after compression to float16; plus three states in which
+//        a.f is a list with non-string elements ([1,2], [true,"red"], [2.5,"blue",false]; 10 filters; the three
+//        rebuilds must give the live answer, no reference semantics claimed for such lists); plus histories of
 //        vector a next to a fixed b (f = 7): for every (previous, final) pair out of 13 values (the 11 above,
 //        the strings "5" and "true" that print like a number / a boolean) the final state is reached by an
 //        in-place update (VSetMetadata), by delete + re-add, and a is deleted for good (494 histories),
@@ -220,6 +222,56 @@ func TestGovcBounded(t *testing.T) {
 			e.Close()
 			os.RemoveAll(dir)
 		}
+	}
+	// ---- lists whose elements are not strings: the index builders must agree ----
+	// (live AddMetadata and the rebuild used by snapshot restore / compression are two functions; what a
+	// list of numbers or booleans matches is whatever the live index answers - no reference semantics is
+	// claimed here - but it must be the same after every rebuild)
+	for li, lv := range []any{[]any{1, 2}, []any{true, "red"}, []any{2.5, "blue", false}} {
+		dir := filepath.Join(base, fmt.Sprintf("l%d", li))
+		e := build(dir, lv, "red")
+		if e == nil {
+			return
+		}
+		lfilters := []string{"f = 2", "f != 2", "f = '2'", "f = true", "f != true", "f = 'red'", "f != 'red'", "f = 2.5", "f = 'false'", "f = false"}
+		live := map[string][]string{}
+		for _, ft := range lfilters {
+			explored++
+			live[ft] = ask(e, ft)
+			if len(live[ft]) == 1 || len(live[ft]) == 2 {
+				nontrivial++
+			}
+		}
+		for _, mode := range modes {
+			switch mode {
+			case "log replay":
+				e.Close()
+				e = openAt(dir)
+			case "snapshot restore":
+				if err := e.SaveSnapshot(); err != nil {
+					fmt.Println("GOVC-BOUNDED-ERROR snapshot:", err)
+					return
+				}
+				e.Close()
+				e = openAt(dir)
+			case "compression":
+				if err := e.VCompress("idx", distance.Float16); err != nil {
+					fmt.Println("GOVC-BOUNDED-ERROR compress:", err)
+					return
+				}
+			}
+			if e == nil {
+				return
+			}
+			for _, ft := range lfilters {
+				explored++
+				if got := ask(e, ft); !same(got, live[ft]) {
+					report("answer after "+mode+" differs from the live answer (list with non-string elements)", lv, "red", ft, live[ft], got)
+				}
+			}
+		}
+		e.Close()
+		os.RemoveAll(dir)
 	}
 	// ---- histories: the answer depends on the current metadata only ----
 	{
